@@ -93,3 +93,41 @@ Definition support_eqb (n : nat) (psi : list GQ) (cnt : counts) (n_samples : Z) 
 (* the call raises *)
 Definition measure_raises (n : nat) (n_samples : Z) : bool :=
   match sample_from_wavefunction n n_samples [] with None => true | Some _ => false end.
+
+(* ------------------------------------------------------------------ the distribution computed from measurements *)
+Definition measured_dist_eqb (shots : list (list bool)) (out : option (list (list bool * Q))) : bool :=
+  oeqb (leqb (peqb lbeqb qeqb)) (get_distribution shots) out.
+
+(* ------------------------------------------------------------------ classical gates / wide registers
+   Gates are passed as tables (column a -> row perm[a], entry i^exps[a]) that the harness read off the
+   implementation's gate matrix; [table_matches] re-checks the table against the literal matrix inside Coq. *)
+Definition tgate (qs perm exps : list nat) : cgate GQr := @table_gate GQr qs perm exps.
+Definition table_matches (k : nat) (perm exps : list nat) (L : list (list GQ)) : bool :=
+  leqb lgeqb (to_list (2 ^ k) (cg_mat (tgate (seq 0 k) perm exps))) L.
+(* the state followed on the tuple: (tuple, amplitude) *)
+Definition basis_path (n : nat) (gs : list (cgate GQr)) : list bool * GQ := brun gs (repeat false n, gq1).
+
+(* narrow registers: the tuple path agrees with C01's code mirror (theorem classical_run, evaluated) *)
+Definition basis_path_eqb (n : nat) (gs : list (cgate GQr)) (psi : list GQ) : bool :=
+  let st := basis_path n gs in
+  is_basis psi && Nat.eqb (basis_index psi) (val (fst st)) && gq_eqb (nth (val (fst st)) psi gq0) (snd st).
+
+(* wide registers: the implementation's non-zero amplitudes as (position in the array, value) *)
+Definition wide_amps_eqb (st : list bool * GQ) (nz : list (nat * GQ)) : bool :=
+  leqb (peqb Nat.eqb gq_eqb) [(val (fst st), snd st)] nz.
+(* get_outcome_probs: all keys in dictionary order; the non-zero probabilities as (position, value) *)
+Definition wide_outcome_probs_eqb (n : nat) (st : list bool * GQ) (keys : list string) (nz : list (nat * Q)) : bool :=
+  lseqb (outcome_strings n) keys && leqb (peqb Nat.eqb qeqb) [(val (fst st), prob_q (snd st))] nz.
+(* the exact distribution: all keys (written as strings of 0/1, position by position) in dictionary order *)
+Definition wide_exact_dist_eqb (n : nat) (st : list bool * GQ) (keys : list string) (nz : list (nat * Q)) : bool :=
+  lseqb (map str_of_bits (product_bits n)) keys && leqb (peqb Nat.eqb qeqb) [(val (fst st), prob_q (snd st))] nz.
+(* run_and_measure: every sample is the state's tuple *)
+Definition measure_index_eqb (n : nat) (st : list bool * GQ) (n_samples : Z) (out : option (list (list bool))) (cnt : counts) : bool :=
+  let m := run_and_measure n n_samples (repeat (val (fst st)) (Z.to_nat n_samples)) in
+  oeqb llbeqb m out &&
+  match m with Some shots => counts_eqb (get_counts shots) cnt | None => match cnt with [] => true | _ => false end end.
+(* exact expectation values on a basis state: |amp|^2 * c * prod_{q in S} (-1)^(t_q)   (theorem expectation_sbasis) *)
+Definition basis_value (st : list bool * GQ) (t : Q * list nat) : Q :=
+  Qmult (prob_q (snd st)) (Qmult (fst t) (inject_Z (tuple_sign (snd t) (fst st)))).
+Definition basis_values_eqb (st : list bool * GQ) (op : zop Q) (per_term : list Q) (total : Q) : bool :=
+  lqeqb' (map (basis_value st) op) per_term && qeqb (qsum (map (basis_value st) op)) total.
